@@ -893,7 +893,7 @@ func TestVerifC12(t *testing.T) {
 		c12CheckSet(c, rs, true, 0)
 	})
 
-	r.Phase("random", r.N(100000, 6000000), func(c *kit.Case) {
+	r.Phase("random", r.N(50000, 5000000), func(c *kit.Case) {
 		rs, mode := c12RandomSet(c.Rng)
 		c.R.Seen("random_modes", mode)
 		if c.Rng.Chance(1, 25) {
